@@ -791,6 +791,7 @@ def _run(ck: Check, rep: Reporter) -> None:
                 rep.escape("chain:" + f1 + "|" + f2, src, names, obs6)
 
     date_family(ck, rep, quick)
+    huge_range_family(ck, rep)
     _t(ck, "chains and date family done")
     # ---- parse side and recursion
     parse_side(ck, rep, 600 if quick else 8000)
@@ -832,6 +833,35 @@ def date_family(ck: Check, rep: Reporter, quick: bool) -> None:
                         break
 
 
+# ---- a range with more items than a C ssize_t holds, as render data (oracle only; range literals in templates are clamped)
+HUGE_RANGE_LEN = ["{{ v | size }}", "{{ v.size }}", "{% for i in v limit:2 %}{{ i }}{% endfor %}", "{% for i in v reversed limit:1 %}{{ i }}{% endfor %}",
+                  "{% tablerow i in v limit:2 %}{{ i }}{% endtablerow %}", "{% for i in v offset:2 limit:1 %}{{ i }}{% endfor %}"]
+HUGE_RANGE_OTHER = ["{{ v | first }}", "{{ v.first }}", "{{ v | last }}", "{{ v.last }}", "{{ v[0] }}", "{{ v[-1] }}", "{% if v contains 3 %}y{% endif %}",
+                    "{% if v == empty %}y{% else %}n{% endif %}", "{% if v == v %}y{% endif %}", "{{ v | slice: 0, 2 }}", "{{ v | default: 'd' }}",
+                    "{% if v %}t{% endif %}", "{% case v %}{% when 1 %}{% endcase %}", "{% assign w = v %}{{ w | first }}", "{{ v }}"]
+
+
+def huge_range_family(ck: Check, rep: Reporter) -> None:
+    data = {"v": range(10 ** 30)}
+    for src in HUGE_RANGE_LEN + HUGE_RANGE_OTHER:
+        obs6 = run6(src, data)
+        ck.note_case(("hugerange", src))
+        ck.count("site.huge-range")
+        ck.traces += 6
+        bad = [o for o in obs6 if o.startswith("OForeign")]
+        if not bad:
+            continue
+        if src in HUGE_RANGE_LEN and all(o == "OForeign EOverflowError" for o in bad):
+            sig = "range-longer-than-ssize-len-overflow"      # len() of such a range: one family, see known_findings.json
+        else:
+            sig = f"foreign:hugerange:{src}:{bad[0].split()[1]}"
+        n = rep.seen.get(sig, 0)
+        rep.seen[sig] = n + 1
+        if n < 2:
+            ck.violation("impl-violation", sig, f"{src!r} with v = range(10**30) raises {bad[0].split()[1][1:]}: not a LiquidError",
+                         {"type": "hugerange", "template": src, "observed": list(obs6)})
+
+
 def _combos(site_name, src, site, nargs, sets):
     all_names, left1, args1, left2, args2 = sets
     if site is None and nargs == 2 and len(args2) == len(ARGS2_QUICK):
@@ -852,6 +882,11 @@ def replay(data) -> int:
         if t == "render":
             obs6 = run6(case["template"], data_of(case["reps"]))
             print("template:", case["template"], "representatives:", case["reps"])
+            print("observed (STRICT,WARN,LAX x sync,async):", obs6)
+            bad = any(o.startswith("OForeign") for o in obs6)
+        elif t == "hugerange":
+            obs6 = run6(case["template"], {"v": range(10 ** 30)})
+            print("template:", case["template"], "v = range(10**30)")
             print("observed (STRICT,WARN,LAX x sync,async):", obs6)
             bad = any(o.startswith("OForeign") for o in obs6)
         elif t == "date":
